@@ -5,7 +5,7 @@ PROPERTY = "C10"
 LEVEL = "other"
 CONTRACT_MODULES = ["contracts.c10"]
 CARRIERS = ["batchie.core.ThetaHolder.get_theta", "batchie.core.ThetaHolder.add_theta", "batchie.core.ThetaHolder.combine",
-            "batchie.core.ThetaHolder.concat", "batchie.cli.evaluate_model.main@chain_ids", "scenarios.c10.holder_roundtrip"]
+            "batchie.core.ThetaHolder.concat", "batchie.cli.evaluate_model.main@chain_ids", "scenarios.c10.holder_roundtrip", "batchie.core.ThetaHolder.save_h5@empty_guard"]
 NATIVE = "c10.py"
 EXPLANATION = (
     "PROVED from the bodies, for every number of chains and of samples per chain: get_theta refuses exactly the positions outside "
@@ -17,7 +17,7 @@ EXPLANATION = (
     "(verified as a REGION of main(): `chain_ids = []` .. `chain_ids = np.array(...)`, live-in = the list of loaded holders) "
     "labels position p with the index of the holder whose block of DECLARED size contains p, in command-line order. LEMMA "
     "(SMT induction): when every holder is complete (stored samples = declared size, which load_h5/save_h5 maintain for complete "
-    "chains) the label of position p equals the chain the p-th sample of concat came from. BOUNDED ONLY (native/c10.py, real "
+    "chains) the label of position p equals the chain the p-th sample of concat came from. The guard at the top of save_h5 (verified as a region) raises ValueError exactly for an empty collection. BOUNDED ONLY (native/c10.py, real "
     "code and real h5py): save/load bit-exactness and numeric group order (1..101 samples, denormals, non-float32 values, empty "
     "single-effect table), from_dicts/dicts of both sample types (dataclass plumbing and h5py groups with symbolic names are "
     "outside the VC generator), the refusal to save an empty collection, and evaluate_model end to end. Because the "
